@@ -1,3 +1,102 @@
-(* C19  (stub while the correspondence is brought up) *)
-From V Require Import Model.Response Proofs.Response.
-Example C19_nonvacuous : next4 5 = 8. Proof. reflexivity. Qed.
+(* C19  NTS server answers are authenticated and carry valid fresh cookies.
+   Property theorems only; proofs are in Proofs/Response.v, the model in Model/Response.v.
+
+   nts_timestamp_response exists in two shapes (parameter tf of the model, read from the tree by the
+   constants translator: TAKE_BEFORE_FILTER_SITES / TAKE_AFTER_FILTER_SITES).  With take(MAX_COOKIES)
+   applied to the fields looked at (tf = false, the tree before `fix: count cookies, not request fields`)
+   the statement "every time answer to an authenticated request can be authenticated" is FALSE
+   (C19_unauthenticated_refuted); with the limit applied to the cookies handed out (tf = true) it holds
+   (C19_answer_authenticates), and C19_tree_counts_cookies pins the tree to that shape. *)
+From V Require Import Model.Response Proofs.Response Gen.ConstResponse.
+Local Open Scope Z_scope.
+
+(* A request whose NTS authentication fails is never answered with time: only an NTS-NAK, or a DENY
+   when the access policy denies the client. *)
+Theorem C19_no_time_on_auth_failure : forall cfg q k alg stats,
+  q_decrypt_failed q = true -> decision cfg q = inl (Some (k, alg, stats)) ->
+  (k = KNak /\ stats = [q_version q; 1; 2; 0]) \/ (k = KDeny /\ c_intended cfg = 1).
+Proof. exact decision_decrypt_failed. Qed.
+
+(* An NTS time answer is only given to a client-mode request whose authenticator decrypted under the
+   keys of its cookie. *)
+Theorem C19_time_needs_authentication : forall cfg q alg stats,
+  decision cfg q = inl (Some (KNtsTime, alg, stats)) ->
+  q_decrypt_failed q = false /\ q_cookie q = Some alg /\ q_mode q = 3 /\ stats = [q_version q; 1; 4; c_intended cfg].
+Proof. exact decision_nts_time. Qed.
+
+(* the tree has the shape in which the limit counts cookies *)
+Example C19_tree_counts_cookies : TAKE_AFTER_FILTER_SITES = 2 /\ TAKE_BEFORE_FILTER_SITES = 0 /\ tree_tf = true.
+Proof. repeat split; reflexivity. Qed.
+
+(* With that shape every NTS time answer has a non-empty encrypted part: the request's own cookie
+   (an authenticated field at least as long as a fresh cookie, wf_request) yields a fresh one ... *)
+Theorem C19_fresh_cookie_present : forall alg q,
+  existsb (fun f => match f with FCookie n => cookie_len alg <=? n | _ => false end) (q_auth q) = true ->
+  fresh_cookies true alg q <> [].
+Proof. exact fresh_nonempty. Qed.
+
+(* ... and an answer with a non-empty encrypted part is serialized with the session's server-to-client
+   cipher and carries the NTS authenticator field (16-byte nonce) whose plaintext holds exactly those cookies;
+   all unique identifiers precede it (C18_fields_subset: a_untrusted = [], they are authenticated). *)
+Theorem C19_answer_authenticates : forall a B w,
+  a_ver a <> 3 -> a_enc a <> [] -> serialize a B = Ok w ->
+  a_cipher a = true /\
+  exists fl ct, w_auth w = Some (fl, NONCE_LEN_256, ct, map cookie_code (a_enc a)).
+Proof. exact serialize_auth_present. Qed.
+
+(* Without it the statement fails: an NTPv4 NTS request without unique identifier whose cookie is the
+   ninth field gets a time answer (statistics: nts = 1, ProvideTime) that is a bare 48-byte header. *)
+Theorem C19_unauthenticated_refuted : exists cfg st q recv now,
+  wf_request q = true /\ q_cookie q = Some 15 /\ q_decrypt_failed q = false /\
+  exists w, handle false cfg st q recv now (request_len q) (request_len q) = ORespond [4; 1; 4; 3] w
+    /\ w_auth w = None /\ wire_len w = 48.
+Proof.
+  exists {| c_intended := 3; c_require_nts := 0; c_accepted := [3; 4; 5] |}.
+  exists {| s_stratum := 2; s_leap := 0; s_refid := [1;2;3;4]; s_precision := 238; s_rdelay_short := [0;0;0;0];
+            s_rdisp_short := [0;0;0;2]; s_rdelay_t32 := [0;0;0;0]; s_rdisp_t32 := [0;0;0;0]; s_filter := [] |}.
+  exists {| q_version := 4; q_mode := 3; q_poll := 6; q_xmit := [1;2;3;4;5;6;7;8]; q_upgrade := false;
+            q_untrusted := [];
+            q_auth := [FUnknown 9 12; FUnknown 9 12; FUnknown 9 12; FUnknown 9 12; FUnknown 9 12; FUnknown 9 12;
+                       FUnknown 9 12; FUnknown 9 12; FCookie 104];
+            q_enc := []; q_mac := 0; q_cookie := Some 15; q_decrypt_failed := false; q_auths := [(16, 16, 40)] |}.
+  exists [0;0;0;100;0;0;0;0], [0;0;0;100;0;0;0;1].
+  vm_compute. repeat split; eauto.
+Qed.
+
+(* At most one fresh cookie per cookie or placeholder of the request that is at least as long as a
+   fresh cookie, never more than eight, and every one of them is a cookie of the session's algorithm
+   (its length is that of KeySet::encode_cookie for that algorithm) -- for both shapes. *)
+Theorem C19_cookie_bounds : forall tf alg q,
+  len (fresh_cookies tf alg q) <= RESP_MAX_COOKIES
+  /\ len (fresh_cookies tf alg q) <= len (filter (big_slot (cookie_len alg)) (q_auth q ++ q_enc q))
+  /\ Forall (fun f => f = FCookie (cookie_len alg)) (fresh_cookies tf alg q).
+Proof. exact fresh_cookies_bounds. Qed.
+
+(* Every fresh cookie is made by encode_cookie from the decoded cookie of the request (algorithm and
+   both session keys): under an ideal AEAD (Section hypothesis dec_enc, visible below) it decodes under
+   the same key set to the same algorithm and keys.  keys[primary] out of range is the panic site of C27. *)
+Theorem C19_cookie_keys : forall (key nonce : Type) (enc : key -> nonce -> list Z -> list Z)
+    (dec : key -> nonce -> list Z -> option (list Z)),
+  (forall k n p, dec k n (enc k n p) = Some p) ->
+  forall (ks : keyset key) n alg s2c c2s c,
+  0 <= ks_primary key ks < 2 ^ 32 -> 0 <= ks_offset key ks < 2 ^ 32 ->
+  encode_cookie key nonce enc ks n alg s2c c2s = Ok c ->
+  decode_cookie key nonce dec ks c = Some (cookie_plain alg s2c c2s).
+Proof. exact cookie_roundtrip. Qed.
+
+Example C19_nonvacuous :
+  let q := {| q_version := 4; q_mode := 3; q_poll := 6; q_xmit := [1;2;3;4;5;6;7;8]; q_upgrade := false;
+              q_untrusted := []; q_auth := [FUid [1;2;3;4;5;6;7;8;9;10;11;12]; FCookie 104; FPlaceholder 104; FPlaceholder 100];
+              q_enc := [FPlaceholder 104]; q_mac := 0; q_cookie := Some 15; q_decrypt_failed := false;
+              q_auths := [(16, 124, 148)] |} in
+  wf_request q = true /\ fresh_cookies true 15 q = [FCookie 104; FCookie 104; FCookie 104]
+  /\ fresh_cookies false 15 q = [FCookie 104; FCookie 104; FCookie 104].
+Proof. vm_compute. repeat split. Qed.
+
+Print Assumptions C19_no_time_on_auth_failure.
+Print Assumptions C19_time_needs_authentication.
+Print Assumptions C19_fresh_cookie_present.
+Print Assumptions C19_answer_authenticates.
+Print Assumptions C19_unauthenticated_refuted.
+Print Assumptions C19_cookie_bounds.
+Print Assumptions C19_cookie_keys.
